@@ -485,3 +485,54 @@ func c12NilAfterCall(c *Ctx) {
 		c.ok("nil-after-call/sites", "", fmt.Sprintf("%d (call, later use) pairs where the callee may clear the pointer field: each use is behind a new test or assignment", nCalls))
 	}
 }
+
+// c12WriterSpace: the encoder's chunk writer slices its input with the free space of its staging buffer
+// (`p[0:space]`). That bound is non-negative because it is computed from the buffer itself (Cap() - Len() of one
+// buffer); computed from anything that another goroutine can lower (the shared chunk size, which the ack stage
+// shrinks when the peer answers slowly) it can go negative, and the slice expression panics in a stage goroutine that
+// has no recover — on input the peer controls only through the timing of well-formed acks.
+func c12WriterSpace(c *Ctx) {
+	f := c.fn("sendDataWriter.Write")
+	n := 0
+	eachInstr(f, func(in ssa.Instruction) {
+		sl, ok := in.(*ssa.Slice)
+		if !ok || !isVar("p")(sl.X) && func() bool { _, isPhi := strip(sl.X).(*ssa.Phi); return !isPhi }() {
+			return
+		}
+		for _, bound := range []ssa.Value{sl.Low, sl.High} {
+			if bound == nil {
+				continue
+			}
+			if _, isC := constInt(bound); isC {
+				continue
+			}
+			n++
+			good := true
+			why := ""
+			for _, l := range origins(bound, originOpts{}) {
+				v := strip(l.V)
+				// a count returned by the buffer's own Write (0 <= n <= len(p[0:space]))
+				if call, idx := callOf(v); call != nil && idx <= 0 && calleeID(&call.Call) == "(*bytes.Buffer).Write" {
+					continue
+				}
+				b, isB := v.(*ssa.BinOp)
+				if isB && b.Op == token.SUB {
+					cx, _ := callOf(b.X)
+					cy, _ := callOf(b.Y)
+					if cx != nil && cy != nil && calleeID(&cx.Call) == "(*bytes.Buffer).Cap" && calleeID(&cy.Call) == "(*bytes.Buffer).Len" && sameValue(cx.Call.Args[0], cy.Call.Args[0]) {
+						continue
+					}
+				}
+				fs := append(append([]fact{}, factsAt(in.Block())...), l.facts()...)
+				if factCmp(fs, token.GEQ, isValue(v), func(k ssa.Value) bool { z, ok := constInt(k); return ok && z >= 0 }) || factCmp(fs, token.GTR, isValue(v), func(k ssa.Value) bool { z, ok := constInt(k); return ok && z >= 0 }) {
+					continue
+				}
+				good, why = false, v.String()
+			}
+			c.check(good, "sendDataWriter.Write/slice-bound-non-negative", c.ipos(in), "the bound is the buffer's own free space (Cap - Len), a count it returned, or guarded >= 0", "a slice bound of the chunk writer ("+why+") is not the buffer's own free space and is not guarded: it can be negative when the shared chunk size was lowered meanwhile, and the slice expression panics in a goroutine without recover")
+		}
+	})
+	if n == 0 {
+		c.undecided("sendDataWriter.Write/slice-bounds", "no variable slice bound found in the chunk writer")
+	}
+}
